@@ -39,7 +39,10 @@ CFG = dict(
               "cylinderSide_indices_from_source", "guards_from_source", "cylinder_caps_from_source",
               "uvSphereUnwelded_indices_from_source", "uvSphereUnwelded_copy_map_from_source",
               "cubeWelded_vertexManifold_connected", "cubeQuads_vertexManifold_connected_mod_merge",
-              "uvSphere_connected", "vertexManifold_partial"],
+              "uvSphere_connected",
+              "uvSphere_positions_from_source", "uvSphere_normals_from_source", "hemisphere_positions_from_source",
+              "circle_positions_from_source", "cylinderSide_positions_from_source",
+              "uvSphere_oneUmbrella", "hemisphere_oneUmbrella", "uvSphereUnwelded_oneUmbrella_mod_merge"],
     streams=[dict(name="c18", n=dict(quick=30, thorough=60),
                   ulps={"c18.pos.sphere": _SIN, "c18.pos.sphereu": _SIN, "c18.pos.hemi": _SIN, "c18.nrm.sphere": _SINN,
                         "c18.pos.cyl": _ROT, "c18.nrm.cyl": _ROTN, "c18.pos.cubeq": _ROT, "c18.nrm.cubeq": _ROTN})],
